@@ -1,6 +1,7 @@
 package main
 
 import (
+	"go/token"
 	"fmt"
 	"go/ast"
 	"go/constant"
@@ -132,8 +133,26 @@ func (r *funcRun) ret(st *State, x *ssa.Return) {
 	// cover: this return is reachable under the preconditions (guards against
 	// contradictory contracts making everything provable)
 	r.counts["cover:return"]++
+	if r.retOrd == nil {
+		var ps []token.Pos
+		for _, b := range r.fn.Blocks {
+			for _, in := range b.Instrs {
+				if rt, ok := in.(*ssa.Return); ok {
+					ps = append(ps, rt.Pos())
+				}
+			}
+		}
+		sort.Slice(ps, func(i, j int) bool { return ps[i] < ps[j] })
+		r.retOrd = map[token.Pos]int{}
+		for _, p := range ps {
+			if _, ok := r.retOrd[p]; !ok {
+				r.retOrd[p] = len(r.retOrd) + 1
+			}
+		}
+	}
 	r.obls = append(r.obls, &Obligation{Name: fmt.Sprintf("%s/cover:return#%d", r.c.Target, r.counts["cover:return"]), Fn: r.c.Target, Kind: "cover",
-		Props: r.c.Serves, Cmds: append([]string(nil), st.cmds...), Goal: BoolLit(false), Theory: r.c.Theory, IsCover: true, Src: r.pos(x), Trace: append([]int(nil), st.trace...)})
+		Props: r.c.Serves, Cmds: append([]string(nil), st.cmds...), Goal: BoolLit(false), Theory: r.c.Theory, IsCover: true, Src: r.pos(x), Trace: append([]int(nil), st.trace...),
+		RetSite: r.retOrd[x.Pos()]})
 	sig := r.fn.Signature
 	names := resultNames(sig)
 	extra := map[string]tval{}
